@@ -1,0 +1,12 @@
+//go:build !verif
+// +build !verif
+
+package moss
+
+// verifAt and verifOnRemove are instrumentation points used only by
+// external verification harnesses built with the "verif" build tag.
+// Without the tag they are empty and get inlined away.
+
+func verifAt(point string, obj interface{}) {}
+
+func verifOnRemove(path string) {}
